@@ -165,6 +165,7 @@ fn main() {
         finish(&ctx, Coverage::default());
     }
 
+    let mut layer_secs: Vec<(&str, f64)> = vec![];
     // layer A: shapes
     let (nc, nb) = if quick { (4, 1) } else { (4, 2) };
     let (all_shapes, shape_transitions) = gitx::explore_shapes(nc, nb);
@@ -187,7 +188,7 @@ fn main() {
     let mut units: Vec<Unit> = vec![];
     for (si, shape) in shapes.iter().enumerate() {
         let n = shape.parents.len();
-        let modes: Vec<DateMode> = if shape.has_merge() { vec![DateMode::Increasing, DateMode::Decreasing, DateMode::ZigZag, DateMode::Equal] } else if quick { vec![DateMode::Increasing] } else { vec![DateMode::Increasing, DateMode::Decreasing] };
+        let modes: Vec<DateMode> = if shape.has_merge() && quick { vec![DateMode::Increasing, DateMode::ZigZag, DateMode::Equal] } else if shape.has_merge() { vec![DateMode::Increasing, DateMode::Decreasing, DateMode::ZigZag, DateMode::Equal] } else if quick { vec![DateMode::Increasing] } else { vec![DateMode::Increasing, DateMode::Decreasing] };
         // quick: 4-commit shapes get the three plain version names only (the PEP 440-only name is covered on smaller shapes and in layer C)
         let a: Vec<(&'static str, bool)> = if quick && n >= 4 { alpha.iter().take(3).cloned().collect() } else { alpha.clone() };
         let labs = labelings(n, &a, tmax);
@@ -226,6 +227,7 @@ fn main() {
         st
     }).reduce(Stats::default, Stats::merge);
 
+    layer_secs.push(("AB", ctx.start.elapsed().as_secs_f64()));
     // layer C: per-commit tag logic — every subset of 8 names on one commit, HEAD on it / one commit after
     let names8: [(&str, bool); 8] = [("v1.0.0", false), ("1.0.0", false), ("v1.1.0", true), ("v1.1.0-rc.1", false), ("1.1.0rc1", false), ("1.1.0.post1", false), ("v1.1.0+build", false), ("nonversion", false)];
     let linear = Shape { parents: vec![vec![], vec![0], vec![1]], branches: [("main".to_string(), 2)].into_iter().collect(), cur: "main".into(), ops: vec!["commit".into(), "commit".into()] };
@@ -252,6 +254,7 @@ fn main() {
         st
     }).reduce(Stats::default, Stats::merge);
 
+    layer_secs.push(("C", ctx.start.elapsed().as_secs_f64()));
     // layer D: work tree states x baseline repositories
     let baselines: Vec<(&Shape, Vec<Tag>, Head)> = {
         let mut v: Vec<(&Shape, Vec<Tag>, Head)> = vec![];
@@ -284,6 +287,7 @@ fn main() {
         st
     }).reduce(Stats::default, Stats::merge);
 
+    layer_secs.push(("D", ctx.start.elapsed().as_secs_f64()));
     // layer E: reference names — branch names with '/', '.', non-ASCII, and names that collide with a tag name
     let branch_names = ["feature/x", "release/1.2", "v1.0.0", "stable", "a.b-c_d", "fé", "1.5.0rc1", "heads/main", "tags/v1.0.0", "HEAD2", "main/sub"];
     let s_e = branch_names.par_iter().enumerate().map(|(bi, name)| {
@@ -327,6 +331,7 @@ fn main() {
         st
     }).reduce(Stats::default, Stats::merge);
 
+    layer_secs.push(("E", ctx.start.elapsed().as_secs_f64()));
     // layer F: checkout kinds whose `.git` is a file, not a directory - a linked worktree (`git worktree add`), also nested
     // inside the main work tree, and a work tree with a separate git directory; the facts are those of *that* checkout
     let s_f = {
@@ -392,6 +397,7 @@ fn main() {
         }
         repo.remove();
     }
+    layer_secs.push(("F", ctx.start.elapsed().as_secs_f64()));
     // layer G: long histories - the nearest tag lies tens of thousands of commits behind HEAD (any cap on how much history
     // is listed or counted, any narrow counter, shows here and only here)
     let mut s_g = Stats::default();
@@ -418,6 +424,7 @@ fn main() {
     }
     let _ = std::fs::remove_dir_all(&root);
 
+    layer_secs.push(("G+process", ctx.start.elapsed().as_secs_f64()));
     let all = s_main.merge(s_c).merge(s_g).merge(s_d).merge(s_e).merge(s_f).merge(s_p.clone());
     let was_capped = capped.load(std::sync::atomic::Ordering::Relaxed);
     let mut cov = Coverage::default();
@@ -426,7 +433,8 @@ fn main() {
     cov.evaluations = all.get("evaluations") + all.get("render_evaluations");
     cov.traces_validated = all.get("states");
     cov.distinct_nontrivial = all.get("tagged_evaluations");
-    cov.rule = format!("layer A: BFS over commit / branch&checkout / checkout / merge(ff or true merge) from a one-commit repository, commits <= {nc}, extra branches <= {nb}: {} distinct shapes ({} used{}), {} explorer transitions; layer B: every placement of <= {tmax} tags from {:?} on any commits x HEAD at every branch tip and detached at every commit x date modes (increasing; decreasing, zig-zag and all-equal for merge shapes); layer C: every subset of <= {max_subset} of 8 names {:?} on one commit x 2 HEAD positions x 3 input formats, the chunks of subsets alternately (thorough: both) in SHA-1 and SHA-256 repositories (64-digit object names); layer D: 27 work-tree states (incl. untracked files covered only by the user-level core.excludesFile or by .git/info/exclude) x {} baseline repositories; layer E: 11 branch names (with '/', '.', non-ASCII, equal to a version tag / a non-version tag / a ref-namespace word) x a tag of the same short name (absent, lightweight or annotated, on the middle commit or the tip) x HEAD on that branch / the other branch / detached x 3 input formats; layer F: checkouts whose .git is a file (linked worktree beside and nested inside the main work tree, separate git directory) clean and with an untracked file; layer G: a linear history of 100001 (thorough 300001) commits with the nearest valid tag 9999 .. 100000 commits behind HEAD. Every state is materialised in real git by fast-import, conformance-checked with `git log --all` / `for-each-ref` / `symbolic-ref` / `status --porcelain=v2`, and judged against R-GIT (nearest validly tagged commit, highest tag under R-SV / C11 order (auto mode: highest under either format that accepts it), distance = |reach(HEAD) minus reach(tag)|, dirty, branch, hashes, times). non-trivial = evaluations that have a valid reachable tag", all_shapes.len(), shapes.len(), if quick { ": all with <= 3 commits plus the 4-commit merge shapes" } else { "" }, shape_transitions, alpha.iter().map(|a| a.0).collect::<Vec<_>>(), names8.iter().map(|a| a.0).collect::<Vec<_>>(), baselines.len());
+    cov.rule = format!("layer A: BFS over commit / branch&checkout / checkout / merge(ff or true merge) from a one-commit repository, commits <= {nc}, extra branches <= {nb}: {} distinct shapes ({} used{}), {} explorer transitions; layer B: every placement of <= {tmax} tags from {:?} on any commits x HEAD at every branch tip and detached at every commit x date modes (increasing; zig-zag and all-equal for merge shapes, thorough also decreasing); layer C: every subset of <= {max_subset} of 8 names {:?} on one commit x 2 HEAD positions x 3 input formats, the chunks of subsets alternately (thorough: both) in SHA-1 and SHA-256 repositories (64-digit object names); layer D: 27 work-tree states (incl. untracked files covered only by the user-level core.excludesFile or by .git/info/exclude) x {} baseline repositories; layer E: 11 branch names (with '/', '.', non-ASCII, equal to a version tag / a non-version tag / a ref-namespace word) x a tag of the same short name (absent, lightweight or annotated, on the middle commit or the tip) x HEAD on that branch / the other branch / detached x 3 input formats; layer F: checkouts whose .git is a file (linked worktree beside and nested inside the main work tree, separate git directory) clean and with an untracked file; layer G: a linear history of 100001 (thorough 300001) commits with the nearest valid tag 9999 .. 100000 commits behind HEAD. Every state is materialised in real git by fast-import, conformance-checked with `git log --all` / `for-each-ref` / `symbolic-ref` / `status --porcelain=v2`, and judged against R-GIT (nearest validly tagged commit, highest tag under R-SV / C11 order (auto mode: highest under either format that accepts it), distance = |reach(HEAD) minus reach(tag)|, dirty, branch, hashes, times). non-trivial = evaluations that have a valid reachable tag", all_shapes.len(), shapes.len(), if quick { ": all with <= 3 commits plus the 4-commit merge shapes" } else { "" }, shape_transitions, alpha.iter().map(|a| a.0).collect::<Vec<_>>(), names8.iter().map(|a| a.0).collect::<Vec<_>>(), baselines.len());
+    cov.set("cumulative_seconds_after_layer", json!(layer_secs.iter().map(|(n, t)| json!({"layer": n, "t": (t * 10.0).round() / 10.0})).collect::<Vec<_>>()));
     cov.exhaustive = !was_capped;
     cov.samples = vec![json!({"ops":["branch b1","commit","checkout main","commit","merge b1"],"dates":"decreasing","tags":["v2.0.0@1","v1.0.0@0"],"head":"main"}), json!({"one_commit_tags":["v1.0.0","1.1.0rc1","1.1.0.post1"],"input_format":"auto"}), json!({"worktree":"IgnoredOnly","head":"detached"})];
     cov.set("clause_counts", all.to_json());
